@@ -631,7 +631,15 @@ def layout_kernel(V, **params):
     return c15.generator_kernel(V, **params)
 
 
-FUNCS = {"pair": pair, "waits": waits, "shram_writes": shram_writes, "layout_kernel": layout_kernel}
+def layout_args(V, **params):
+    """... and from the operation's own quantisation, operand kind, activation and precision (harness/c15.py generator_args): `scaled` selects the
+    accumulator format register"""
+    from harness import c15
+
+    return c15.generator_args(V, **params)
+
+
+FUNCS = {"layout_args": layout_args, "pair": pair, "waits": waits, "shram_writes": shram_writes, "layout_kernel": layout_kernel}
 
 
 def instances(tier, seed):
@@ -640,6 +648,7 @@ def instances(tier, seed):
 
     for accel in ("Ethos_U55_128", "Ethos_U65_512"):
         out.append(dict(key="layout_kernel/%s" % accel, fn="layout_kernel", params=dict(accel=accel)))
+        out.append(dict(key="layout_args/%s" % accel, fn="layout_args", params=dict(accel=accel)))
     for inst in c04.instances(tier, seed):
         if inst["fn"] == "shram_writes":
             out.append(dict(key=inst["key"], fn="shram_writes", params=inst["params"]))
